@@ -200,6 +200,14 @@ func (e *Env) LifetimeOracle() []Finding {
 					}
 				}
 				for s, n := range per {
+					if strings.HasSuffix(s, "/child") {
+						// a scope created by user code inside a constructor: its initializers run once, too
+						if n != 1 {
+							out = append(out, Finding{feat("clause", "initializer-count", "count", fmt.Sprint(n)),
+								fmt.Sprintf("scope initializer %s ran %d times for the scope a constructor created (%s), want 1", r, n, s)})
+						}
+						continue
+					}
 					if !want[s] && n > 0 {
 						out = append(out, Finding{feat("clause", "initializer-outside-creation"),
 							fmt.Sprintf("scope initializer %s ran %d times in %s which is not a scope creation", r, n, s)})
